@@ -17,14 +17,14 @@ from ..core import clients as C
 from ..core import h11sessions as HS
 from ..core import runner as R
 from ..core import streams as S
-from ..core.framework import Ctx, b2s
+from ..core.framework import Ctx, b2s, s2b
 
 SPEC = {
     "modules": ["HC.Props.C01"],
-    "extracted": ["Guards", "Consts", "H11Tables", "ReqGlue", "Runtime"],
-    "technique": "Lean 4: scope construction law (target split, method, headers), per-event forwarding lemmas and a transducer theorem for runs of body events (concatenation / one final message / segmentation independence at the glue), filter_pseudo_headers spec, one instance per request (with C06 serial) — tied by direct drive of H11Protocol with h11 taps and by end-to-end runs on both workers over every two-way split",
-    "level_text": "Proved in Lean: the HTTP/1 scope is exactly (upper-cased method, target split at the first '?' with nothing lost, version, header list as h11 reports it or raw when configured); a WebSocket scope is chosen iff GET + Upgrade: websocket + Connection upgrade token; on HTTP/2 the header list is host (from :authority, else host) followed by the non-pseudo, non-host headers in order; every Data / EndOfMessage event of the parser is forwarded to the live instance as exactly one http.request message carrying those bytes; for every chunking of the body the messages concatenate to the body with exactly one more_body=False message iff the parser reported completion, independently of how the parser cut the bytes; handling a Request spawns exactly one instance, and (C06) only when none is live; the server-name decision (host-header test extracted from utils.valid_server_name) is the same for the raw and the lower-cased header list, so configuring raw headers never changes whether an instance is started; on HTTP/2 every DataReceived acknowledges exactly its flow-controlled length whether or not its stream still exists (call counts extracted from _handle_events), so the connection receive window is conserved over any sequence of DATA events.  That the parsers' events carry the client's bytes for every segmentation is library behaviour: sampled end-to-end on both workers (HTTP/1.0, 1.1, 2; content-length, chunked, DATA frames; every two-way split of requests <= 300 bytes, random k-way and one-byte-per-read splits; eager, lazy and slow consumers with more chunks than the bounded app queue holds; raw headers on/off x server names set/unset with the client's own spelling of Host; HTTP/2 connections with several requests, applications answering before or without reading the body and late uploads).",
-    "level_note": "Trusted: Lean kernel; models HC/Proto/H11.lean, HC/Stream/Http.lean, HC/Pure/Utils.lean (differential runs); h11 / h2 / hpack parsing and the asyncio Queue / trio memory channel FIFO semantics are library behaviour (sampled); urllib.parse.unquote is compared with an independent percent-decoder written in the harness; the HTTP/2 protocol glue is covered end-to-end only (no Lean model of H2Protocol's receive side beyond filter_pseudo_headers).",
+    "extracted": ["Guards", "Consts", "H11Tables", "ReqGlue", "Runtime", "C04Sites"],
+    "technique": "Lean 4: scope construction law (target split, method, headers), per-event forwarding lemmas and a transducer theorem for runs of body events (concatenation / one final message / segmentation independence at the glue), filter_pseudo_headers spec, one instance per request (with C06 serial); HTTP/2 END TO END: a contents-carrying wrapper of the C04 receive-side model of H2Protocol (HC/Proto/H2Deliver.lean: header lists, DATA payloads, flow-controlled lengths), frame conditions for every operation of that model, and delivery theorems over every run (h2_request_delivered, h2_request_end_to_end, h2_data_acked) composed with the HTTPStream transducer — tied by direct drive of H11Protocol with h11 taps, by direct drive of the real H2Protocol (tap log replayed through the composed model: scopes, http.request messages, acknowledgements), and by end-to-end runs on both workers over every two-way split",
+    "level_text": "Proved in Lean: the HTTP/1 scope is exactly (upper-cased method, target split at the first '?' with nothing lost, version, header list as h11 reports it or raw when configured); a WebSocket scope is chosen iff GET + Upgrade: websocket + Connection upgrade token; on HTTP/2 the header list is host (from :authority, else host) followed by the non-pseudo, non-host headers in order; every Data / EndOfMessage event of the parser is forwarded to the live instance as exactly one http.request message carrying those bytes; for every chunking of the body the messages concatenate to the body with exactly one more_body=False message iff the parser reported completion, independently of how the parser cut the bytes; handling a Request spawns exactly one instance, and (C06) only when none is live; the server-name decision (host-header test extracted from utils.valid_server_name) is the same for the raw and the lower-cased header list, so configuring raw headers never changes whether an instance is started; on HTTP/2 every DataReceived acknowledges exactly its flow-controlled length whether or not its stream still exists (call counts extracted from _handle_events), so the connection receive window is conserved over any sequence of DATA events.  HTTP/2 END TO END (theorems h2_request_delivered / h2_request_end_to_end / h2_data_acked): for every run of the receive side of H2Protocol - h2 events of any number of streams, PRIORITY / WINDOW_UPDATE / SETTINGS, the applications' stream_send calls and the send task's iterations in any order, the libraries answering as they may - in which a stream not known before receives RequestReceived(headers), then DataReceived events, then StreamEnded iff the client completed the body, the request being one _create_stream accepts and the stream not being removed in between (no RST_STREAM for it, connection not closed, its application not finished): exactly one stream object is created for it, its scope is (:method upper-cased, :path split at the first '?' with nothing lost, header list = filter_pseudo_headers(headers), HTTP version 2), and it is handed exactly one Body per DATA event carrying that event's payload, in order, then EndBody iff StreamEnded came - so the http.request messages concatenate to the DATA payloads with exactly one final message iff the client ended the stream, whatever the other streams did; and in EVERY run (reset streams, finished applications, closed connection included) every DATA event is acknowledged exactly once with its flow-controlled length, in order (the per-path call counts of the receive-side model = the extracted ones: h2_ack_paths).  The argument lists of Request(...), Body(...), the header loop of _create_stream are extracted and pinned.  The composed model is tied to the code by direct drive of the real H2Protocol with real HTTPStreams (frame-level sessions: several requests with bodies in several DATA frames incl. empty and padded ones, frames of the streams interleaved, applications answering early, resets): the tap log is replayed through it and the scopes, the http.request messages each application was put, the acknowledgements (stream, amount) and the abstract request flags must agree; where the theorem's hypotheses hold its conclusion is evaluated on the implementation's own observations.  That the parsers' events carry the client's bytes for every segmentation is library behaviour: sampled end-to-end on both workers (HTTP/1.0, 1.1, 2; content-length, chunked, DATA frames; every two-way split of requests <= 300 bytes, random k-way and one-byte-per-read splits; eager, lazy and slow consumers with more chunks than the bounded app queue holds; raw headers on/off x server names set/unset with the client's own spelling of Host; HTTP/2 connections with several requests, applications answering before or without reading the body and late uploads).",
+    "level_note": "Trusted: Lean kernel; models HC/Proto/H11.lean, HC/Stream/Http.lean, HC/Pure/Utils.lean (differential runs); h11 / h2 / hpack parsing and the asyncio Queue / trio memory channel FIFO semantics are library behaviour (sampled); urllib.parse.unquote is compared with an independent percent-decoder written in the harness; the receive-side model of H2Protocol HC/Proto/H2Recv.lean is C04's (tied by its differential run) and its contents wrapper HC/Proto/H2Deliver.lean is tied by the direct-drive comparison here; what h2 reports in RequestReceived / DataReceived for the client's bytes (HPACK, padding, segmentation) is library behaviour (sampled end to end); the bounded application queue between HTTPStream and the application is asyncio's / trio's (sampled end to end with more chunks than it holds).",
     "rule": "request kinds x framing x body-size class x split class x consumer class x protocol x worker x configuration (raw headers, server names); HTTP/2 connection sessions: mode x consumer x upload timing x body-size class; every two-way split of sessions <= 300 bytes is enumerated (exhaustive for those sessions); distinct = (protocol, framing, pipeline length, body-size class, split class, consumer class); non-trivial = non-empty body or a pipeline",
     "trusted": ["h11 0.16 / h2 4.4.1 parsers", "asyncio.Queue and trio memory channels"],
     "partial": ["methods are compared after ASCII upper-casing; non-UTF-8 percent-escapes are compared through Python's replacement policy"],
@@ -574,6 +574,176 @@ def check_h2conn(ctx: Ctx, sessions: List[dict]) -> None:
         ctx.sample({"family": "h2conn", "mode": case["mode"], "requests": [[r["consumer"], r["upload"], r["body_len"]] for r in reqs]}, cap=5)
 
 
+# --------------------------------------------------------------------------------------------------------------
+# the receive side of H2Protocol with contents, against the composed model (direct drive of harness/core/h2recv.py)
+# --------------------------------------------------------------------------------------------------------------
+GLUE_APPS = {
+    # what the application of a stream does, message by message (None = it returns)
+    "reads": [{"type": "http.response.start", "status": 200, "headers": []}, {"type": "http.response.body", "body": b"ok"}, None],
+    "early": [{"type": "http.response.start", "status": 200, "headers": []}, {"type": "http.response.body", "body": b"early"}, None],
+    "streaming": [{"type": "http.response.start", "status": 200, "headers": []}, {"type": "http.response.body", "body": b"a" * 100, "more_body": True},
+                  {"type": "http.response.body", "body": b"", "more_body": False}, None],
+    "silent": [],
+}
+
+
+def gen_h2glue(rng, idx: int) -> dict:
+    """frame-level sessions: 1-4 requests with bodies in several DATA frames (distinct payloads, padding, empty frames), the
+    frames of the streams interleaved, WINDOW_UPDATE / PRIORITY / SETTINGS in between, applications that answer early (the rest
+    of the upload finds the stream gone), client resets, and the send task running in between"""
+    from ..core import h2recv as G
+    F = G.Frames()
+    steps: List[dict] = [{"read": b2s(F.preface())}]
+    n = rng.choice([1, 2, 2, 3, 4])
+    plans = []
+    for k in range(n):
+        sid = 1 + 2 * k
+        kind = rng.choice(["post", "post", "query", "te_trailers", "no_authority_host", "odd_method", "big_headers", "get", "nonascii_path", "connect_plain"])
+        nd = 0 if kind in ("get", "connect_plain") else rng.choice([0, 1, 2, 3, 6])
+        frames = []
+        for j in range(nd):
+            size = rng.choice([0, 1, 7, 50, 300])
+            payload = (b"%d.%d|" % (sid, j) + bytes(rng.randrange(256) for _ in range(size)))[:max(size, 0)] if size else b""
+            frames.append((payload, rng.choice([0, 0, 0, 5])))
+        plans.append({"sid": sid, "kind": kind, "path": rng.choice(["/", "/a/b?x=1&y=%ff", "/p%41th?%3F", "/q?"]), "frames": frames,
+                      "ends": rng.random() < 0.8, "app": rng.choice(["reads", "reads", "early", "streaming", "silent"]),
+                      "rst": rng.random() < 0.1, "hdr_sent": False, "sent": 0, "ended": False, "app_at": rng.choice(["start", "middle", "end"])})
+    apps = {p["sid"]: list(GLUE_APPS[p["app"]]) for p in plans}
+    pending = list(plans)
+    guard = 0
+    while pending and guard < 400:
+        guard += 1
+        p = rng.choice(pending)
+        sid = p["sid"]
+        r = rng.random()
+        if not p["hdr_sent"]:
+            hs = G.req_headers(p["kind"], path=p["path"]) if p["kind"] not in ("query", "nonascii_path", "odd_method", "connect_plain") else G.req_headers(p["kind"])
+            hs = hs + [("x-k", str(sid))]
+            end_now = not p["frames"] and p["ends"]
+            steps.append({"read": b2s(F.headers(sid, hs, end_stream=end_now, cont=rng.choice([0, 0, 3])))})
+            p["hdr_sent"] = True
+            p["ended"] = end_now
+            if p["app_at"] == "start":
+                steps += [{"app": [sid, m]} for m in apps.pop(sid, [])]
+        elif r < 0.12:
+            steps.append({"read": b2s(rng.choice([F.window_update(0, 1000), F.window_update(sid, 10), F.priority(sid + 100, 0, 5), F.ping(),
+                                                  F.settings({4: rng.choice([10, 65535, 1 << 20])})]))})
+        elif p["sent"] < len(p["frames"]):
+            payload, pad = p["frames"][p["sent"]]
+            p["sent"] += 1
+            last = p["sent"] == len(p["frames"]) and p["ends"] and rng.random() < 0.5
+            steps.append({"read": b2s(F.data(sid, payload, end_stream=last, pad=pad))})
+            p["ended"] = p["ended"] or last
+            if p["app_at"] == "middle" and p["sent"] == max(1, len(p["frames"]) // 2) and sid in apps:
+                steps += [{"app": [sid, m]} for m in apps.pop(sid, [])]
+            if p["rst"] and p["sent"] == 1 and not p["ended"]:
+                steps.append({"read": b2s(F.rst(sid, 8))})
+                p["ended"] = True
+                p["frames"] = p["frames"][:p["sent"]]
+        else:
+            if p["ends"] and not p["ended"]:
+                steps.append({"read": b2s(F.data(sid, b"", end_stream=True))})
+                p["ended"] = True
+            pending.remove(p)
+            steps += [{"app": [sid, m]} for m in apps.pop(sid, [])]
+    return {"family": "h2glue", "steps": steps, "cfg": {"keep_alive_max_requests": 1000}, "idx": idx,
+            "kinds": [p["kind"] for p in plans], "apps": [p["app"] + "@" + p["app_at"] for p in plans]}
+
+
+def _glue_steps_py(steps: List[dict]) -> List[dict]:
+    return [({"read": s2b(st["read"])} if "read" in st else st) for st in steps]
+
+
+def check_h2glue(ctx: Ctx, cases: List[dict]) -> None:
+    from ..core import h2recv as G
+    runs, reqs = [], []
+    for case in cases:
+        r = G.run(G.drive_h2(case["cfg"], _glue_steps_py(case["steps"])))
+        ops, _seen = G.to_ops(r["log"])
+        rich = []
+        for o in ops:
+            if o["op"] in ("stray", "unsupported"):
+                continue
+            o = {k: v for k, v in o.items() if not k.startswith("_")}
+            if o["op"] == "ev" and o["k"] == "request":
+                rich.append({"op": "request", "sid": o["sid"], "headers": o["headers"], "ins": o.get("ins"), "lib": o.get("lib"), "_flags": o})
+            elif o["op"] == "ev" and o["k"] == "data":
+                rich.append({"op": "data", "sid": o["sid"], "d": o["d"], "flow": o["flow"]})
+            else:
+                rich.append(o)
+        ids = sorted({o["sid"] for o in rich if o.get("op") in ("request", "data")})
+        reqs.append({"cmd": "h2deliver.run", "ka_max": case["cfg"].get("keep_alive_max_requests", 1000), "ids": ids,
+                     "ops": [{k: v for k, v in o.items() if k != "_flags"} for o in rich]})
+        runs.append((case, r, rich, ids))
+    model = ctx.model(reqs)
+    for n, (case, r, rich, ids) in enumerate(runs):
+        ctx.evaluations += 1
+        ctx.traces_validated += 1
+        sig = {"family": "h2glue"}
+        if r["error"]:
+            ctx.violation("handler_exception", case, {"error": r["error"]}, {**sig, "kind": "internal"})
+            continue
+        # ---- the implementation's own observations ----
+        acks = [[e[2], e[4]] for e in r["log"] if e[0] == "h2" and e[1] == "acknowledge_received_data" and e[3] is None]
+        flows = [[o["sid"], o["flow"]] for o in rich if o["op"] == "data"]
+        if acks != flows:
+            # every DATA frame is acknowledged exactly once, with its flow-controlled length, whether or not its stream still exists
+            ctx.violation("data_not_acknowledged", case, {"acks": acks[:12], "data_events": flows[:12]}, sig)
+        if model is None:
+            continue
+        ctx.disagreements_checked += 1
+        m = model[n].get("ok")
+        if m is None or m["error"] is not None or not m["ok"]:
+            ctx.disagree("h2deliver.run", case, model[n], "run of the real H2Protocol without an uncaught exception")
+            continue
+        # the abstract request the wrapper computes from the header list = what the C04 taps derive from the h2 event
+        flags = [{k: o["_flags"][k] for k in ("sid", "hasMethod", "methodAscii", "isConnect", "hasPath", "pathAscii")} for o in rich if o["op"] == "request"]
+        if m["reqs"] != flags:
+            ctx.disagree("h2deliver.reqOf", case, m["reqs"], flags)
+        if [[d[1], d[2]] for d in m["dlv"] if d[0] == "ack"] != acks:
+            ctx.disagree("h2deliver.acks", case, [d for d in m["dlv"] if d[0] == "ack"][:12], acks[:12])
+        for sid in ids:
+            mine = [d for d in m["dlv"] if d[0] != "ack" and d[1] == sid]
+            starts = [d for d in mine if d[0] == "start"]
+            a = r["apps"].get(sid)
+            http = bool(starts) and not starts[0][2]
+            if not http:
+                if a is not None and a["type"] == "http":
+                    ctx.disagree("h2deliver.start", {**case, "sid": sid}, mine[:4], a["scope"])
+                continue
+            ctx.count("h2glue.stream", "http")
+            if a is None or a["spawns"] != len(starts) or len(starts) != 1:
+                ctx.disagree("h2deliver.start", {**case, "sid": sid}, mine[:4], a)
+                continue
+            if starts[0][3] != a["scope"]:
+                ctx.disagree("h2deliver.scope", {**case, "sid": sid}, starts[0][3], a["scope"])
+            bodies = [[d[2], True] for d in mine if d[0] == "body"] + [["", False] for d in mine if d[0] == "endBody"]
+            order = [d[0] for d in mine[1:]]
+            real_msgs = [[x[1], x[2]] for x in a["msgs"] if x[0] == "http.request"]
+            if bodies != real_msgs or sorted(order, key=lambda k: {"body": 0, "endBody": 1, "closed": 2}[k]) != order:
+                ctx.disagree("h2deliver.body", {**case, "sid": sid}, [[len(b), mb] for b, mb in bodies][:12], [[len(b), mb] for b, mb in real_msgs][:12])
+            if (["closed"] if "closed" in order else []) != ["closed" for x in a["msgs"] if x[0] == "http.disconnect"]:
+                ctx.disagree("h2deliver.closed", {**case, "sid": sid}, order, [x[0] for x in a["msgs"]])
+            # ---- theorem `h2_request_delivered`, evaluated on the implementation: where its hypotheses hold (`Adm`: request accepted,
+            # stream not removed), the application got exactly the DATA payloads in order and one final message iff END_STREAM came
+            # (`admLen`: the prefix of the run up to the operation that removes the stream - its application finishing, a reset; nothing
+            # is handed to a removed stream afterwards, so what the application got over the whole run is what it got in that prefix)
+            pre = rich[:m["admLen"].get(str(sid), 0)]
+            if pre:
+                rx = [o for o in pre if (o["op"] in ("request", "data") and o["sid"] == sid) or (o["op"] == "ev" and o.get("k") == "ended" and o.get("sid") == sid)]
+                if rx and rx[0]["op"] == "request" and sum(1 for o in rx if o["op"] == "request") == 1:
+                    ended = rx[-1]["op"] == "ev"
+                    datas = [o["d"] for o in rx if o["op"] == "data"]
+                    want = [[d, True] for d in datas] + ([["", False]] if ended else [])
+                    ctx.count("h2glue.theorem_hypotheses_hold", "ended" if ended else "open")
+                    ctx.distinct(["h2glue", len(datas), ended, len(ids), case["apps"][ids.index(sid)] if ids.index(sid) < len(case["apps"]) else "?"])
+                    if real_msgs != want:
+                        ctx.violation("body", {**case, "sid": sid}, {"got": [[len(b), mb] for b, mb in real_msgs][:12], "want": [[len(b), mb] for b, mb in want][:12]},
+                                      {**sig, "reader": True})
+        ctx.sample({"family": "h2glue", "kinds": case["kinds"], "apps": case["apps"], "ops": len(rich)}, cap=3)
+
+
+
 def run(ctx: Ctx) -> None:
     rng = ctx.rng
     cases = []
@@ -609,6 +779,7 @@ def run(ctx: Ctx) -> None:
     check_e2e(ctx, corpus_e2e + timing_corpus() + sessions, all_two_way=False)
     check_e2e(ctx, shorts, all_two_way=True)
     check_h2conn(ctx, h2conn_corpus() + [gen_h2conn(ctx) for _ in range(ctx.budget(30, 400))])
+    check_h2glue(ctx, [gen_h2glue(rng, k) for k in range(ctx.budget(300, 6000))])
 
 
 def replay(ctx: Ctx, case: dict) -> None:
@@ -616,6 +787,8 @@ def replay(ctx: Ctx, case: dict) -> None:
         check_direct(ctx, [case])
     elif case.get("family") == "h2conn":
         check_h2conn(ctx, [case])
+    elif case.get("family") == "h2glue":
+        check_h2glue(ctx, [{k: v for k, v in case.items() if k != "sid"}])
     elif case.get("family") == "filter_pseudo":
         check_filter_pseudo(ctx, 200)
     else:
